@@ -13,7 +13,7 @@ Three parts:
     the models, whose raising steps provably return their input state."""
 import os, json, re
 import vlib
-from props import C02 as P2, C04 as P4, C16 as P16
+from props import C02 as P2, C03 as P3, C04 as P4, C16 as P16
 
 EXN = re.compile(r'^[A-Za-z]*Error$')
 SIZES = [0, 1, 2, 5, 13]
@@ -85,6 +85,34 @@ def atom_table(case, impl, spec):
             return 'step %d raised %s but the table changed' % (n, out)
         prev = (ln, slots, it)
     return P2.oracle(case, impl, spec)
+
+
+def atom_tree(case, impl, spec):
+    """C03 transcript: out;len;shape;fwd;bwd per step; a raising step must reproduce the previous tree"""
+    prev = None
+    for n, a in enumerate(P3.steps(impl)):
+        if len(a) != 5:
+            return 'step %d: %s' % (n, ';'.join(a)[:80])
+        if EXN.match(a[0]) and prev is not None and a[1:] != prev[1:]:
+            return 'step %d raised %s but the tree changed' % (n, a[0])
+        prev = a
+    return P3.oracle(case, impl, spec)
+
+
+def gen_tree_invalid(rng, maxops):
+    base = P3.gen_case(rng, rng.randrange(2, 14), rng.choice(['random', 'asc', 'small', 'dups']))
+    kt, toks = P3.split(base)
+    keys = [int(m) for m in re.findall(r's(-?\d+),', base)] or [1, 2, 3]
+    for _ in range(rng.randrange(2, maxops)):
+        r = rng.random()
+        absent = rng.choice([k for k in (max(keys) + 7, min(keys) - 3, 2 ** 62, -2 ** 63, 777777)
+                             if -2 ** 63 <= k < 2 ** 63 and k not in keys])
+        if r < .3: toks.append('g%d' % absent)
+        elif r < .55: toks.append('r%d' % absent)
+        elif r < .7: toks.append('z%d' % rng.choice([1, 2, 50]))      # a Tree can only be resized to 0: FormatError
+        elif r < .85: toks.append('s%d,%d' % (rng.choice(keys), rng.randrange(100)))
+        else: toks.append('r%d' % rng.choice(keys))
+    return P3.join(kt, toks)
 
 
 def gen_table_invalid(rng, maxops):
@@ -195,6 +223,21 @@ def run(ctx):
     for i in range(0, len(cases), 2000):
         dt.feed(cases[i:i + 2000])
     dt.report(lambda dd: dd.feed([gen_table_invalid(ctx.rng, 20) for _ in range(4000)]))
+    # trees (C03 machinery)
+    drv4 = ctx.build_driver('Tree')
+    h4 = ctx.build_harness('tree_wb.c', whitebox='Tree')
+    dtr = vlib.Differential(ctx, 'tree_invalid', lambda cs: ctx.run_lines(h4, cs)[1],
+                            lambda cs: ctx.run_lines(drv4, cs, args=['model'])[1],
+                            lambda cs: ctx.run_lines(drv4, cs, args=['spec'])[1], atom_tree, P3.corr,
+                            nontrivial=lambda c, i: 'Error;' in i, split=P3.split, join=P3.join)
+    if rp:
+        r = json.load(open(rp))
+        if r.get('harness') == 'tree_invalid':
+            dtr.feed([r['case']]); dtr.report(); return
+    cases = [gen_tree_invalid(ctx.rng, 14) for _ in range(600 if quick else 15000)]
+    for i in range(0, len(cases), 2000):
+        dtr.feed(cases[i:i + 2000])
+    dtr.report()
     # strings (C16 machinery): its oracle already demands outcome and characters after every step, failed rem included
     drv3 = ctx.build_driver('StringM')
     h3 = ctx.build_harness('string_ops.c', whitebox='String')
